@@ -7,11 +7,10 @@ import (
 	"path/filepath"
 )
 
-// ViolateKnown records a (P) failure like Violate, with the id of a known finding (an entry
-// `known: property=Cxx id=<known> ...` of known_findings.txt): the check driver prints KNOWN-FINDING for it
-// instead of VIOLATION.  With known == "" it behaves exactly like Violate.  The replay file additionally
-// carries the fields of extra (e.g. trimmed goroutine dumps) next to "case".
-func (r *Result) ViolateKnown(desc string, replay interface{}, known string, extra map[string]interface{}) {
+// ViolateWith records a (P) failure like ViolateKnown (known = id of an entry `known: property=Cxx id=<known> ...`
+// of known_findings*.txt, "" = a plain violation); the replay file additionally carries the fields of extra
+// (e.g. trimmed goroutine dumps) next to "case".
+func (r *Result) ViolateWith(desc string, replay interface{}, known string, extra map[string]interface{}) {
 	r.mu.Lock()
 	defer r.mu.Unlock()
 	if len(r.Violations) >= 20 {
